@@ -544,3 +544,71 @@ func bindToCaller(v ssa.Value, caller *ssa.Function) ssa.Value {
 	}
 	return v
 }
+
+// throughHelpers returns a ThroughCall function for core.Origins that looks into the results of module functions (a
+// value computed by a helper is what the helper returns); each function is entered once.
+func throughHelpers() func(cc *ssa.Call, idx int) []ssa.Value {
+	seenFn := map[*ssa.Function]bool{}
+	return func(cc *ssa.Call, idx int) []ssa.Value {
+		f := core.StaticCallee(cc)
+		if f == nil || f.Pkg == nil || !core.IsModule(f.Pkg.Pkg) || f.Blocks == nil || seenFn[f] {
+			return nil
+		}
+		seenFn[f] = true
+		var vs []ssa.Value
+		for _, ret := range returnsOf(f) {
+			if rs := core.ReturnResults(ret); idx < len(rs) {
+				vs = append(vs, rs[idx])
+			}
+		}
+		return vs
+	}
+}
+
+// upperClamp recognises v = min(inner, limit): the builtin, or phi(limit | inner) where the limit edge is taken exactly
+// when limit < inner. limit is returned as a value (often a constant).
+func upperClamp(v ssa.Value) (inner, limit ssa.Value, ok bool) {
+	switch x := v.(type) {
+	case *ssa.Call:
+		if bi, isB := x.Call.Value.(*ssa.Builtin); isB && bi.Name() == "min" && len(x.Call.Args) == 2 {
+			for i := 0; i < 2; i++ {
+				if _, isC := core.ConstInt(x.Call.Args[i]); isC {
+					return x.Call.Args[1-i], x.Call.Args[i], true
+				}
+			}
+			return x.Call.Args[0], x.Call.Args[1], true
+		}
+	case *ssa.Phi:
+		if len(x.Edges) != 2 {
+			return nil, nil, false
+		}
+		for i := 0; i < 2; i++ {
+			lim, in := x.Edges[i], x.Edges[1-i]
+			pred := x.Block().Preds[i]
+			conds := core.CondsAt(pred)
+			if iff, isIf := pred.Instrs[len(pred.Instrs)-1].(*ssa.If); isIf && pred.Succs[0] != pred.Succs[1] {
+				conds = append(conds, struct {
+					Cond ssa.Value
+					Val  bool
+				}{iff.Cond, pred.Succs[0] == x.Block()})
+			}
+			for _, cnd := range conds {
+				cm, isCmp := core.CmpOf(cnd.Cond)
+				if !isCmp || cm.Op != "<" || cnd.Val == cm.Neg {
+					continue
+				}
+				// lim < in
+				sameLim := cm.XV == lim
+				if k1, ok1 := core.ConstInt(cm.XV); ok1 {
+					if k2, ok2 := core.ConstInt(lim); ok2 && k1 == k2 {
+						sameLim = true
+					}
+				}
+				if sameLim && cm.YV == in {
+					return in, lim, true
+				}
+			}
+		}
+	}
+	return nil, nil, false
+}
